@@ -196,10 +196,7 @@ def decorated_func(kind, variant):
     if key not in _CACHE:
         from beartype import beartype
         und = fresh_func(kind, variant)
-        dec = beartype(und)
-        if dec is und:
-            raise HarnessError(f'@beartype returned {kind}/{variant} undecorated')
-        _CACHE[key] = dec
+        _CACHE[key] = beartype(und)     # (an undecorated result is simply judged by the oracle like any other)
     return _CACHE[key]
 
 
@@ -216,12 +213,19 @@ def canon_exc(e):
     if isinstance(e, ExpectedViolation) or name == 'BeartypeCallHintReturnViolation':
         return ['exc', 'BeartypeCallHintReturnViolation']
     if isinstance(e, StopIteration):
-        return ['exc', name] if e.value is None else ['exc', name, str(e.value)]
-    return ['exc', name] + [str(a) for a in e.args]
+        return ['exc', name] if e.value is None else ['exc', name, _atom(e.value)]
+    return ['exc', name] + [_atom(a) for a in e.args]
+
+
+def _atom(v):
+    """ints / strings as text, None as 'none', anything else by its class (never a repr with an address)"""
+    if v is None:
+        return 'none'
+    return str(v) if isinstance(v, (int, str)) else f'<{type(v).__name__} object>'
 
 
 def canon_val(v):
-    return ['val', 'none' if v is None else str(v)]
+    return ['val', _atom(v)]
 
 
 def _apply_sync(o, op):
@@ -284,7 +288,6 @@ def quiet():
     global _QUIET
     if not _QUIET:
         _QUIET = True
-        gc.collect()
         gc.freeze()          # everything imported so far is permanent: the between-batch collections stay cheap
     gc.disable()
 
